@@ -17,6 +17,23 @@ class SourceError(Exception):
     """The contract no longer binds to the code (function / loop vanished or renamed)."""
 
 
+_SNAPSHOTS = None
+
+
+def snapshots() -> dict:
+    """{qualified name of an outermost function: its text when the contracts were last anchored}"""
+    global _SNAPSHOTS
+    if _SNAPSHOTS is None:
+        import json
+        path = os.path.join(os.path.dirname(os.path.dirname(os.path.abspath(__file__))), "contracts", "snapshots.json")
+        try:
+            with open(path) as f:
+                _SNAPSHOTS = json.load(f)
+        except (OSError, ValueError):
+            _SNAPSHOTS = {}
+    return _SNAPSHOTS
+
+
 class Module:
     def __init__(self, name: str, path: str):
         self.name = name
@@ -25,6 +42,48 @@ class Module:
             self.text = f.read()
         self.tree = ast.parse(self.text, filename=path)
         self.lines = self.text.split("\n")
+        self.reanchored: dict[str, dict] = {}
+        self._reanchor()
+
+    def _reanchor(self):
+        """Contracts, invariants and shape obligations name local variables.  A function that differs from the text the
+        contracts were anchored on only by a one-to-one renaming of locally bound names is alpha-renamed back to those
+        names (positions kept).  Alpha-renaming preserves meaning; anything else leaves the function as it is."""
+        snaps = snapshots()
+        if not snaps:
+            return
+        from . import shape
+
+        def visit(node, prefix):
+            for i, ch in enumerate(getattr(node, "body", [])):
+                if isinstance(ch, (ast.FunctionDef, ast.AsyncFunctionDef)):
+                    q = prefix + "." + ch.name
+                    old = snaps.get(q)
+                    if old is None:
+                        continue
+                    try:
+                        snap = ast.parse(old).body[0]
+                    except (SyntaxError, IndexError):
+                        continue
+                    if ast.dump(snap) == ast.dump(ch):
+                        continue
+                    res = shape.alpha_rename(snap, ch)
+                    if res is None:
+                        # an accumulation loop written out where the snapshot has the list comprehension
+                        ch2, n_loops = shape.canon_append_loops(ch)
+                        if n_loops:
+                            if ast.dump(snap) == ast.dump(ch2):
+                                res = (ch2, {"<append loops as comprehensions>": str(n_loops)})
+                            else:
+                                res = shape.alpha_rename(snap, ch2)
+                                if res is not None:
+                                    res[1]["<append loops as comprehensions>"] = str(n_loops)
+                    if res is not None:
+                        node.body[i] = res[0]
+                        self.reanchored[q] = res[1]
+                elif isinstance(ch, ast.ClassDef):
+                    visit(ch, prefix + "." + ch.name)
+        visit(self.tree, self.name)
 
 
 class Repo:
